@@ -92,8 +92,10 @@ def gate_item(n, pos, t):
             return ("    #[diplomat::opaque]\n    pub struct H%d(u8);\n    impl H%d {\n        pub fn m(self) {}\n    }\n" % (n, n), "H%d::m" % n)
         if k == "struct":
             return ("    pub struct H%d { pub a: u8 }\n    impl H%d {\n        pub fn m(self) {}\n    }\n" % (n, n), "H%d::m" % n)
-        if k == "ref" and t["t"]["k"] == "struct":
-            return ("    pub struct H%d { pub a: u8 }\n    impl H%d {\n        pub fn m(&self) {}\n    }\n" % (n, n), "H%d::m" % n)
+        if k in ("ref", "mutref") and t["t"]["k"] == "struct":
+            return ("    pub struct H%d { pub a: u8 }\n    impl H%d {\n        pub fn m(%s) {}\n    }\n" % (n, n, "&self" if k == "ref" else "&mut self"), "H%d::m" % n)
+        if k in ("ref", "mutref") and t["t"]["k"] == "enum":
+            return ("    pub enum H%d { A, B }\n    impl H%d {\n        pub fn m(%s) {}\n    }\n" % (n, n, "&self" if k == "ref" else "&mut self"), "H%d::m" % n)
         if k == "outstruct":
             return ("    #[diplomat::out]\n    pub struct H%d { pub a: u8 }\n    impl H%d {\n        pub fn m(self) {}\n    }\n" % (n, n), "H%d::m" % n)
         if k == "enum":
